@@ -28,10 +28,12 @@ theorem shift_a3 (a b c d e f : Nat) (h1 : a ≤ b) (h2 : b ≤ c) (he : e = d +
     within the budget `lim`. -/
 def Shift {α : Type} (lim : Nat) (F : X.St → Res α) : Prop :=
   ∀ σ1 σ2, Sim σ1 σ2 →
-    (∀ a s1, F σ1 = .ok a s1 → σ1.steps ≤ s1.steps ∧ (σ2.steps + (s1.steps - σ1.steps) ≤ lim →
-        ∃ s2, F σ2 = .ok a s2 ∧ Sim s1 s2 ∧ s2.steps = σ2.steps + (s1.steps - σ1.steps))) ∧
-    (∀ c s1, F σ1 = .exit c s1 → σ1.steps ≤ s1.steps ∧ (σ2.steps + (s1.steps - σ1.steps) ≤ lim →
-        ∃ s2, F σ2 = .exit c s2 ∧ Sim s1 s2 ∧ s2.steps = σ2.steps + (s1.steps - σ1.steps)))
+    (∀ a s1, F σ1 = .ok a s1 → σ1.steps ≤ s1.steps ∧ (σ1.steps ≤ lim → s1.steps ≤ lim) ∧
+        (σ2.steps + (s1.steps - σ1.steps) ≤ lim →
+          ∃ s2, F σ2 = .ok a s2 ∧ Sim s1 s2 ∧ s2.steps = σ2.steps + (s1.steps - σ1.steps))) ∧
+    (∀ c s1, F σ1 = .exit c s1 → σ1.steps ≤ s1.steps ∧ (σ1.steps ≤ lim → s1.steps ≤ lim) ∧
+        (σ2.steps + (s1.steps - σ1.steps) ≤ lim →
+          ∃ s2, F σ2 = .exit c s2 ∧ Sim s1 s2 ∧ s2.steps = σ2.steps + (s1.steps - σ1.steps)))
 
 theorem Shift.undef {α : Type} (lim : Nat) (w : String) : Shift lim (fun _ => (Res.undef w : Res α)) :=
   fun _ _ _ => ⟨fun _ _ h => by simp at h, fun _ _ h => by simp at h⟩
@@ -41,14 +43,14 @@ theorem Shift.ok {α : Type} (lim : Nat) (a : α) : Shift lim (fun s => Res.ok a
   refine ⟨fun a' s1 h => ?_, fun _ _ h => by simp at h⟩
   simp only [Res.ok.injEq] at h
   obtain ⟨rfl, rfl⟩ := h
-  exact ⟨Nat.le_refl _, fun _ => ⟨σ2, rfl, hs, by omega⟩⟩
+  exact ⟨Nat.le_refl _, fun h => h, fun _ => ⟨σ2, rfl, hs, by omega⟩⟩
 
 theorem Shift.exit {α : Type} (lim : Nat) (c : Word) : Shift lim (fun s => (Res.exit c s : Res α)) := by
   intro σ1 σ2 hs
   refine ⟨fun _ _ h => by simp at h, fun c' s1 h => ?_⟩
   simp only [Res.exit.injEq] at h
   obtain ⟨rfl, rfl⟩ := h
-  exact ⟨Nat.le_refl _, fun _ => ⟨σ2, rfl, hs, by omega⟩⟩
+  exact ⟨Nat.le_refl _, fun h => h, fun _ => ⟨σ2, rfl, hs, by omega⟩⟩
 
 theorem Shift.bind {α β : Type} {lim : Nat} {F : X.St → Res α} {f : α → X.St → Res β}
     (hF : Shift lim F) (hf : ∀ a, Shift lim (f a)) : Shift lim (fun s => (F s).bind f) := by
@@ -63,12 +65,13 @@ theorem Shift.bind {α β : Type} {lim : Nat} {F : X.St → Res α} {f : α → 
     | ok a s1 =>
       rw [hr] at h
       simp only [Res.bind] at h
-      obtain ⟨hm1, hk1⟩ := hFo a s1 hr
+      obtain ⟨hm1, hbd1, hk1⟩ := hFo a s1 hr
       have hm2 := ((hf a s1 s1 (Sim.refl _)).1 b t1 h).1
-      refine ⟨Nat.le_trans hm1 hm2, fun hb => ?_⟩
+      have hbd2 := ((hf a s1 s1 (Sim.refl _)).1 b t1 h).2.1
+      refine ⟨Nat.le_trans hm1 hm2, fun hl => hbd2 (hbd1 hl), fun hb => ?_⟩
       have hb1 : σ2.steps + (s1.steps - σ1.steps) ≤ lim := shift_a1 _ _ _ _ _ hm1 hm2 hb
       obtain ⟨s2, e2, hs2, hst2⟩ := hk1 hb1
-      obtain ⟨_, hk2⟩ := (hf a s1 s2 hs2).1 b t1 h
+      obtain ⟨_, _, hk2⟩ := (hf a s1 s2 hs2).1 b t1 h
       have hb2 : s2.steps + (t1.steps - s1.steps) ≤ lim := shift_a2 _ _ _ _ _ _ hm1 hm2 hb hst2
       obtain ⟨t2, e3, hs3, hst3⟩ := hk2 hb2
       have hfin : t2.steps = σ2.steps + (t1.steps - σ1.steps) := shift_a3 _ _ _ _ _ _ hm1 hm2 hst2 hst3
@@ -81,19 +84,20 @@ theorem Shift.bind {α β : Type} {lim : Nat} {F : X.St → Res α} {f : α → 
       rw [hr] at h
       simp only [Res.bind, Res.exit.injEq] at h
       obtain ⟨rfl, rfl⟩ := h
-      obtain ⟨hm1, hk1⟩ := hFe c' s hr
-      refine ⟨hm1, fun hb => ?_⟩
+      obtain ⟨hm1, hbd1, hk1⟩ := hFe c' s hr
+      refine ⟨hm1, hbd1, fun hb => ?_⟩
       obtain ⟨s2, e2, hs2, hst2⟩ := hk1 hb
       exact ⟨s2, by simp only [e2, Res.bind], hs2, hst2⟩
     | ok a s1 =>
       rw [hr] at h
       simp only [Res.bind] at h
-      obtain ⟨hm1, hk1⟩ := hFo a s1 hr
+      obtain ⟨hm1, hbd1, hk1⟩ := hFo a s1 hr
       have hm2 := ((hf a s1 s1 (Sim.refl _)).2 c t1 h).1
-      refine ⟨Nat.le_trans hm1 hm2, fun hb => ?_⟩
+      have hbd2 := ((hf a s1 s1 (Sim.refl _)).2 c t1 h).2.1
+      refine ⟨Nat.le_trans hm1 hm2, fun hl => hbd2 (hbd1 hl), fun hb => ?_⟩
       have hb1 : σ2.steps + (s1.steps - σ1.steps) ≤ lim := shift_a1 _ _ _ _ _ hm1 hm2 hb
       obtain ⟨s2, e2, hs2, hst2⟩ := hk1 hb1
-      obtain ⟨_, hk2⟩ := (hf a s1 s2 hs2).2 c t1 h
+      obtain ⟨_, _, hk2⟩ := (hf a s1 s2 hs2).2 c t1 h
       have hb2 : s2.steps + (t1.steps - s1.steps) ≤ lim := shift_a2 _ _ _ _ _ _ hm1 hm2 hb hst2
       obtain ⟨t2, e3, hs3, hst3⟩ := hk2 hb2
       have hfin : t2.steps = σ2.steps + (t1.steps - σ1.steps) := shift_a3 _ _ _ _ _ _ hm1 hm2 hst2 hst3
@@ -114,7 +118,7 @@ theorem Shift.liftE {α : Type} {lim : Nat} {g : X.St → Except String α} (hg 
       rw [hr] at h
       simp only [Res.ok.injEq] at h
       obtain ⟨rfl, rfl⟩ := h
-      refine ⟨Nat.le_refl _, fun _ => ⟨σ2, ?_, hs, by omega⟩⟩
+      refine ⟨Nat.le_refl _, fun h => h, fun _ => ⟨σ2, ?_, hs, by omega⟩⟩
       dsimp only
       unfold X.liftE
       rw [← he, hr]
@@ -139,7 +143,7 @@ theorem Shift.update {lim : Nat} {g : X.St → Except String X.St}
       rw [h1] at h
       simp only [Res.ok.injEq] at h
       obtain ⟨rfl, rfl⟩ := h
-      exact ⟨by omega, fun _ => ⟨t', by dsimp only; rw [h2], hst, by omega⟩⟩
+      exact ⟨by omega, fun hl => by omega, fun _ => ⟨t', by dsimp only; rw [h2], hst, by omega⟩⟩
     · intro c s1 h; dsimp only at h; rw [h1] at h; simp at h
 
 theorem Shift.ite {α : Type} {lim : Nat} {c : X.St → Bool} {A B : X.St → Res α} (hc : ∀ s s', Sim s s' → c s = c s')
@@ -177,14 +181,20 @@ theorem Shift.tick {α : Type} {xc : X.Ctx} {F : X.St → Res α} (w : String) (
       simp only at h
       obtain ⟨e1, k1⟩ := key st1 ht
       have hm := ((hF st1 st1 (Sim.refl _)).1 a s1 h).1
-      refine ⟨Nat.le_trans (by rw [e1]; exact Nat.le_succ _) hm, fun hb => ?_⟩
+      have hbd := ((hF st1 st1 (Sim.refl _)).1 a s1 h).2.1
+      have hlt1 : st1.steps ≤ xc.limit := by
+        unfold X.tick at ht
+        split at ht
+        · simp at ht
+        · simp only [Option.some.injEq] at ht; subst ht; simp only; omega
+      refine ⟨Nat.le_trans (by rw [e1]; exact Nat.le_succ _) hm, fun _ => hbd hlt1, fun hb => ?_⟩
       have hle : σ1.steps ≤ st1.steps := by rw [e1]; exact Nat.le_succ _
       have hb1 : σ2.steps + 1 ≤ xc.limit := by
         have := shift_a1 _ _ _ _ _ hle hm hb
         rw [e1, Nat.add_sub_cancel_left] at this
         exact this
       obtain ⟨st2, ht2, hs2, e2⟩ := k1 hb1
-      obtain ⟨_, hk⟩ := (hF st1 st2 hs2).1 a s1 h
+      obtain ⟨_, _, hk⟩ := (hF st1 st2 hs2).1 a s1 h
       have e2' : st2.steps = σ2.steps + (st1.steps - σ1.steps) := by rw [e2, e1, Nat.add_sub_cancel_left]
       have hb2 : st2.steps + (s1.steps - st1.steps) ≤ xc.limit := shift_a2 _ _ _ _ _ _ hle hm hb e2'
       obtain ⟨s2, e3, hs3, e4⟩ := hk hb2
@@ -199,14 +209,20 @@ theorem Shift.tick {α : Type} {xc : X.Ctx} {F : X.St → Res α} (w : String) (
       simp only at h
       obtain ⟨e1, k1⟩ := key st1 ht
       have hm := ((hF st1 st1 (Sim.refl _)).2 c s1 h).1
-      refine ⟨Nat.le_trans (by rw [e1]; exact Nat.le_succ _) hm, fun hb => ?_⟩
+      have hbd := ((hF st1 st1 (Sim.refl _)).2 c s1 h).2.1
+      have hlt1 : st1.steps ≤ xc.limit := by
+        unfold X.tick at ht
+        split at ht
+        · simp at ht
+        · simp only [Option.some.injEq] at ht; subst ht; simp only; omega
+      refine ⟨Nat.le_trans (by rw [e1]; exact Nat.le_succ _) hm, fun _ => hbd hlt1, fun hb => ?_⟩
       have hle : σ1.steps ≤ st1.steps := by rw [e1]; exact Nat.le_succ _
       have hb1 : σ2.steps + 1 ≤ xc.limit := by
         have := shift_a1 _ _ _ _ _ hle hm hb
         rw [e1, Nat.add_sub_cancel_left] at this
         exact this
       obtain ⟨st2, ht2, hs2, e2⟩ := k1 hb1
-      obtain ⟨_, hk⟩ := (hF st1 st2 hs2).2 c s1 h
+      obtain ⟨_, _, hk⟩ := (hF st1 st2 hs2).2 c s1 h
       have e2' : st2.steps = σ2.steps + (st1.steps - σ1.steps) := by rw [e2, e1, Nat.add_sub_cancel_left]
       have hb2 : st2.steps + (s1.steps - st1.steps) ≤ xc.limit := shift_a2 _ _ _ _ _ _ hle hm hb e2'
       obtain ⟨s2, e3, hs3, e4⟩ := hk hb2
@@ -269,7 +285,7 @@ theorem Shift.doSyscall (lim : Nat) (id : Word) (vs : List Val) : Shift lim (X.d
         · intro a s1 h
           simp only [Res.ok.injEq] at h
           obtain ⟨rfl, rfl⟩ := h
-          refine ⟨Nat.le_refl _, fun _ => ⟨_, rfl, ?_, by simp⟩⟩
+          refine ⟨Nat.le_refl _, fun h => h, fun _ => ⟨_, rfl, ?_, by simp⟩⟩
           exact ⟨hs.1, hs.2.1, hs.2.2.1, by simp only; rw [hs.2.2.2.1], hs.2.2.2.2⟩
         · intro c s1 h; simp at h
       · exact Shift.undef lim _ σ1 σ2 hs
@@ -281,7 +297,7 @@ theorem Shift.doSyscall (lim : Nat) (id : Word) (vs : List Val) : Shift lim (X.d
           · intro a s1 h
             simp only [Res.ok.injEq] at h
             obtain ⟨rfl, rfl⟩ := h
-            refine ⟨Nat.le_refl _, fun _ => ⟨_, by rw [hs.2.2.2.1], ?_, by simp⟩⟩
+            refine ⟨Nat.le_refl _, fun h => h, fun _ => ⟨_, by rw [hs.2.2.2.1], ?_, by simp⟩⟩
             exact ⟨hs.1, hs.2.1, hs.2.2.1, by simp only; rw [hs.2.2.2.1], hs.2.2.2.2⟩
           · intro c s1 h; simp at h
         · exact Shift.undef lim _ σ1 σ2 hs
@@ -552,7 +568,7 @@ theorem shift_callUser_succ : ∀ p vs, Shift xc.limit (X.callUser (f + 1) xc p 
         | ok fl s1 =>
           rw [hx] at h
           simp only [Res.bind] at h
-          obtain ⟨hm, hk⟩ := hbo fl s1 hx
+          obtain ⟨hm, hbd, hk⟩ := hbo fl s1 hx
           have hfin : ∀ (t : X.St), (r, t1) = (r, t) → True := fun _ _ => trivial
           -- the four combinations of flow and kind
           cases fl with
@@ -563,7 +579,7 @@ theorem shift_callUser_succ : ∀ p vs, Shift xc.limit (X.callUser (f + 1) xc p 
               rw [hf] at h
               simp only [Res.ok.injEq] at h
               obtain ⟨rfl, rfl⟩ := h
-              refine ⟨hm, fun hb => ?_⟩
+              refine ⟨hm, hbd, fun hb => ?_⟩
               obtain ⟨s2, e2, hs2, hst2⟩ := hk hb
               refine ⟨{ s2 with locals := σ2.locals, depth := σ1.depth }, ?_, ?_, hst2⟩
               · rw [e2]; simp only [Res.bind, hf]
@@ -575,7 +591,7 @@ theorem shift_callUser_succ : ∀ p vs, Shift xc.limit (X.callUser (f + 1) xc p 
               rw [hf] at h
               simp only [Res.ok.injEq] at h
               obtain ⟨rfl, rfl⟩ := h
-              refine ⟨hm, fun hb => ?_⟩
+              refine ⟨hm, hbd, fun hb => ?_⟩
               obtain ⟨s2, e2, hs2, hst2⟩ := hk hb
               refine ⟨{ s2 with locals := σ2.locals, depth := σ1.depth }, ?_, ?_, hst2⟩
               · rw [e2]; simp only [Res.bind, hf]
@@ -591,8 +607,8 @@ theorem shift_callUser_succ : ∀ p vs, Shift xc.limit (X.callUser (f + 1) xc p 
           rw [hx] at h
           simp only [Res.bind, Res.exit.injEq] at h
           obtain ⟨rfl, rfl⟩ := h
-          obtain ⟨hm, hk⟩ := hbe c' s hx
-          refine ⟨hm, fun hb => ?_⟩
+          obtain ⟨hm, hbd, hk⟩ := hbe c' s hx
+          refine ⟨hm, hbd, fun hb => ?_⟩
           obtain ⟨s2, e2, hs2, hst2⟩ := hk hb
           exact ⟨s2, by rw [e2]; simp only [Res.bind], hs2, hst2⟩
 
